@@ -2,7 +2,7 @@
     retired nameplate / mailbox.  Classification and timing rule (for EVERY
     number of sides and every list of moods); the counting part (one record per
     retirement, none otherwise, the status row) is quoted from UsageCount.v. *)
-From MW Require Import Base Store Monad Usage Server Websocket Service Inv Obs UsageFacts ProtoFacts UsageCount UsageCount2 ActivityFacts Inst_Params RestartUsage.
+From MW Require Import Base Store Monad Usage Server Websocket Service Inv Obs UsageFacts ProtoFacts UsageCount UsageCount2 ActivityFacts Inst_Params RestartUsage UsageRun.
 
 (** nameplates: crowded (> 2 sides), else pruney, else happy (2 sides), else lonely *)
 Theorem C15_nameplate_result :
@@ -154,6 +154,40 @@ Print Assumptions C15_restart_retires.
 Theorem C15_restart_usage_off : ltac:(let t := type of restart_usage_off in exact t).
 Proof. exact restart_usage_off. Qed.
 Print Assumptions C15_restart_usage_off.
+
+
+(** ** run level (UsageRun.v): "exactly one usage record per retired nameplate / mailbox", for every crash-free
+    history from the initial state: the usage tables at the end are (a permutation of) the concatenation, over the
+    events, of one record per row RETIRED by that event ([np_retired] / [mb_retired]: rows present before the event
+    -- for a fresh close: after its implicit open -- and gone after it); every retired row was present, is not
+    alive afterwards, and is retired once; hence as many records as retirements, and rows still alive contributed
+    none; without a usage database nothing is ever written *)
+Theorem C15_usage_run : ltac:(let t := type of usage_run in exact t).
+Proof. exact usage_run. Qed.
+Check C15_usage_run.
+Print Assumptions C15_usage_run.
+
+Theorem C15_usage_run_count : ltac:(let t := type of usage_run_count in exact t).
+Proof. exact usage_run_count. Qed.
+Check C15_usage_run_count.
+Print Assumptions C15_usage_run_count.
+
+Theorem C15_retired_not_alive : ltac:(let t := type of retired_not_alive in exact t).
+Proof. exact retired_not_alive. Qed.
+Check C15_retired_not_alive.
+Print Assumptions C15_retired_not_alive.
+
+Theorem C15_retired_nodup : ltac:(let t := type of retired_nodup in exact t).
+Proof. exact retired_nodup. Qed.
+Print Assumptions C15_retired_nodup.
+
+Theorem C15_usage_off_run : ltac:(let t := type of usage_off_run in exact t).
+Proof. exact usage_off_run. Qed.
+Check C15_usage_off_run.
+Print Assumptions C15_usage_off_run.
+
+Example C15_usage_run_nonvacuous : ltac:(let t := type of usage_run_nonvacuous in exact t).
+Proof. exact usage_run_nonvacuous. Qed.
 
 
 Example C15_nonvacuous :
